@@ -22,6 +22,7 @@ package engine
 // One output line per step.
 
 import (
+	"strings"
 	"bufio"
 	"crypto/sha256"
 	"encoding/hex"
@@ -94,6 +95,7 @@ type c13Driver struct {
 	armed map[string]bool
 	parks []c13Park
 	calls []string
+	nins  int
 	out   *json.Encoder
 }
 
@@ -146,6 +148,12 @@ func (r *c13RM) Insert(t string, cols []string, vals []interface{}) (storage.WAL
 	r.d.calls = append(r.d.calls, "Insert")
 	b, err := r.RelationService.Insert(t, cols, vals)
 	r.d.park("after-change")
+	r.d.nins++
+	if r.d.nins == 200 {
+		// deep inside a long multi-row statement (added by the main session: a statement must stay
+		// one critical section however many rows it has)
+		r.d.park("after-change-row-200")
+	}
 	return b, err
 }
 
@@ -214,6 +222,7 @@ func (d *c13Driver) execParked(kind, q string, points []string) error {
 	}
 	d.parks = nil
 	d.calls = nil
+	d.nins = 0
 	if len(points) == 0 {
 		st.Phase = "traced"
 	}
@@ -368,6 +377,20 @@ func (d *c13Driver) run() error {
 		{"update", "UPDATE t2 SET name = 'z' WHERE id = 1"},
 		{"select", "SELECT a.id, b.name FROM t2 a JOIN t0 b ON a.id = b.id"},
 		{"delete", "DELETE FROM t2 WHERE id = 2"},
+	}
+	if !c.SkipParked && (c.Only == "" || c.Only == "insert") {
+		// one long INSERT (260 rows), parked after its 200th row and before its log append
+		var sb strings.Builder
+		sb.WriteString("INSERT INTO t2 (id, name, n) VALUES ")
+		for i := 0; i < 260; i++ {
+			if i > 0 {
+				sb.WriteString(", ")
+			}
+			fmt.Fprintf(&sb, "(%d, 'r', %d)", 1000+i, i)
+		}
+		if err := d.execParked("insert", sb.String(), []string{"after-change-row-200", "before-log-append"}); err != nil {
+			return err
+		}
 	}
 	for _, p := range parked {
 		if c.SkipParked {
